@@ -131,6 +131,8 @@ thread_local! {
     static CID: Cell<usize> = const { Cell::new(0) };
     /// store reads performed by this thread (reset at the start of a get)
     static DBREADS: Cell<u64> = const { Cell::new(0) };
+    /// this thread is inside a recorded get: its store reads are recorded
+    static REC_GET: Cell<bool> = const { Cell::new(false) };
 }
 
 #[derive(Default)]
@@ -207,10 +209,18 @@ impl Rig {
             let Some(r) = r2.upgrade() else { return };
             DBREADS.with(|c| c.set(c.get() + 1));
             let cid = CID.with(Cell::get);
-            if cid == 0 {
-                return;
+            let rec = REC_GET.with(Cell::get);
+            // `db`: the store was read (just before); `dbx`: the value is handed
+            // to the cache (just after) - a stalled reader sits between the two
+            if rec {
+                r.rec(json!({"e": "db", "c": cid}));
             }
-            r.hook(cid);
+            if cid != 0 {
+                r.hook(cid);
+            }
+            if rec {
+                r.rec(json!({"e": "dbx", "c": cid}));
+            }
         })));
         rig
     }
@@ -508,7 +518,9 @@ async fn exec(rig: &Arc<Rig>, cid: usize, cmd: Cmd, batches: &mut BTreeMap<u64, 
         Cmd::Get { k } => {
             DBREADS.with(|c| c.set(0));
             rig.rec(json!({"e": "gs", "c": cid, "k": k}));
+            REC_GET.with(|c| c.set(true));
             let r = rig.get(k).await;
+            REC_GET.with(|c| c.set(false));
             let d = DBREADS.with(Cell::get);
             rig.rec(json!({"e": "ge", "c": cid, "k": k, "r": r, "db": d}));
             json!({"r": r, "db": d})
@@ -983,7 +995,9 @@ fn par_one(id: u64, rng: &mut StdRng, p: &ParParams, panics: &Arc<AtomicU64>) ->
                         let k = r.gen_range(0..keys);
                         DBREADS.with(|c| c.set(0));
                         rig.rec(json!({"e": "gs", "c": cid, "k": k}));
+                        REC_GET.with(|c| c.set(true));
                         let res = rig.get(k).await;
+                        REC_GET.with(|c| c.set(false));
                         let d = DBREADS.with(Cell::get);
                         rig.rec(json!({"e": "ge", "c": cid, "k": k, "r": res, "db": d}));
                         if r.gen_range(0..4) == 0 {
@@ -1073,7 +1087,9 @@ fn par_one(id: u64, rng: &mut StdRng, p: &ParParams, panics: &Arc<AtomicU64>) ->
                 for k in 0..p.keys {
                     DBREADS.with(|c| c.set(0));
                     rig.rec(json!({"e": "gs", "c": 0, "k": k}));
+                    REC_GET.with(|c| c.set(true));
                     let res = rig.get(k).await;
+                    REC_GET.with(|c| c.set(false));
                     let d = DBREADS.with(Cell::get);
                     rig.rec(json!({"e": "ge", "c": 0, "k": k, "r": res, "db": d}));
                 }
